@@ -409,7 +409,9 @@ func (nc *nilCtx) pmCallersEstablishSession() bool {
 	c := nc.c
 	g := c.Graph(arm)
 	n, ok := 0, true
-	for _, call := range callsIn(arm, func(fn *types.Func, _ *ast.CallExpr) bool { return isFunc(fn, "ircserver", "(*IRCServer).ProcessMessage") }) {
+	for _, call := range callsIn(arm, func(fn *types.Func, _ *ast.CallExpr) bool {
+		return isFunc(fn, "ircserver", "(*IRCServer).ProcessMessage")
+	}) {
 		n++
 		v := g.VertexOf(call)
 		a, _ := c.errNilAfterCall(arm, g, v, func(fn *types.Func, _ *ast.CallExpr) bool {
@@ -424,7 +426,9 @@ func (nc *nilCtx) pmCallersEstablishSession() bool {
 		if fi == arm {
 			continue
 		}
-		if len(callsIn(fi, func(fn *types.Func, _ *ast.CallExpr) bool { return isFunc(fn, "ircserver", "(*IRCServer).ProcessMessage") })) > 0 {
+		if len(callsIn(fi, func(fn *types.Func, _ *ast.CallExpr) bool {
+			return isFunc(fn, "ircserver", "(*IRCServer).ProcessMessage")
+		})) > 0 {
 			ok = false
 		}
 	}
